@@ -16,11 +16,11 @@
    Declared length 0 (excluded by the property's quantifier): such a binary IS
    accepted; the returned component then carries len(blob) instead of 0
    ([declared], Bf3Component.__init__: actual_len or len(blob)). *)
-From Coq Require Import List NArith ZArith Bool Lia.
+From Coq Require Import List NArith ZArith Bool.
 From Coq Require Import Init.Byte.
 From Bec2 Require Import Base.Result Base.Bytes Base.Reader Gen.Consts Model.Cbc Model.Bf3 Model.Layout
   Proofs.CbcProofs Proofs.Bf3Proofs Proofs.LayoutProofs Proofs.LayoutWriterProofs
-  Proofs.LayoutReaderProofs Proofs.LayoutAdapterProofs.
+  Proofs.LayoutReaderProofs Proofs.LayoutAdapterProofs Proofs.LayoutCanonicalProofs.
 Import ListNotations.
 Open Scope N_scope.
 
@@ -52,11 +52,7 @@ Print Assumptions C05_accept_iff_nomac.
 Theorem C05_content : forall dec mac check b off k cs,
   from_binary dec mac (mkR b off) check k = Ok cs ->
   forall fs, is_bf3_body_gen mac check off k fs b -> Forall2 (field_comp dec k) fs cs.
-Proof.
-  intros dec mac check b off k cs H fs Hfs.
-  destruct (from_binary_sound dec mac check b off k cs H) as [fs' [Hb Hc]].
-  rewrite (fields_unique mac check off k b fs fs' Hfs Hb). exact Hc.
-Qed.
+Proof. exact content_is_fields. Qed.
 Print Assumptions C05_content.
 
 (* in particular, under the property's quantifier (declared length >= 1) *)
@@ -67,53 +63,22 @@ Theorem C05_content_declared : forall dec mac check b off k cs fs,
                       c_enc c = enc_tagged (ef_tags (fr_entry f)) /\
                       (if c_enc c then dec k None (fr_payload f) = Ok (c_blob c)
                        else c_blob c = fr_payload f)) fs cs.
-Proof.
-  intros dec mac check b off k cs fs H Hfs Hd.
-  pose proof (C05_content dec mac check b off k cs H fs Hfs) as Hc.
-  clear H Hfs. induction Hc as [|f c fs cs [H1 [H2 H3]] _ IH]; [constructor|].
-  inversion Hd as [|? ? Hd1 Hd']; subst. constructor; [|apply IH, Hd'].
-  split; [exact H1|]. split.
-  - rewrite H3. unfold declared. destruct (ef_actual (fr_entry f) =? 0) eqn:Ez; [|reflexivity].
-    apply N.eqb_eq in Ez. lia.
-  - destruct (enc_tagged (ef_tags (fr_entry f))); destruct H2 as [H2 H2']; rewrite H2'; auto.
-Qed.
+Proof. exact content_declared. Qed.
 Print Assumptions C05_content_declared.
 
-(* file level: the signature must be intact, the body starts at offset 5 *)
-Definition read_bf3_binary dec mac (bin : bytes) (check : bool) (k : bytes) : result (list comp) :=
-  let r := new_reader bin in
-  let* (hd, r) := rd_read (blen BF3_FILE_SIG) r in
-  if negb (bytes_eqb hd BF3_FILE_SIG) then Err EBf3 else from_binary dec mac r check k.
-
+(* file level: read_file = decode the text, then read_bf3_binary (signature test, body at
+   offset 5); the signature must be intact *)
 Theorem C05_read_file_is : forall dec mac t check k,
   read_file dec mac t check k =
   (let* (bin, cm) := parse_bf3_file t in
    let* cs := read_bf3_binary dec mac bin check k in Ok (mkBf3 cm cs)).
-Proof.
-  intros. unfold read_file, read_bf3_binary. destruct (parse_bf3_file t) as [[bin cm]|]; [|reflexivity].
-  cbn [bind]. destruct (rd_read (blen BF3_FILE_SIG) (new_reader bin)) as [[hd r]|]; [|reflexivity].
-  cbn [bind]. destruct (negb (bytes_eqb hd BF3_FILE_SIG)); reflexivity.
-Qed.
+Proof. exact read_file_is. Qed.
 Print Assumptions C05_read_file_is.
 
 Theorem C05_file_accept_iff : forall dec mac bin k,
   (exists cs, read_bf3_binary dec mac bin true k = Ok cs) <->
   (exists fs, is_bf3_file mac k fs bin /\ decryptable dec k fs).
-Proof.
-  intros dec mac bin k. unfold read_bf3_binary, is_bf3_file, new_reader.
-  assert (Hs : BF3_SIGNATURE = BF3_FILE_SIG) by reflexivity.
-  split.
-  - intros [cs H].
-    destruct (rd_read (blen BF3_FILE_SIG) {| rest := bin; pos := 0 |}) as [[hd r]|] eqn:Er; cbn [bind] in H; [|discriminate].
-    destruct (bytes_eqb hd BF3_FILE_SIG) eqn:Eh; cbn [negb] in H; [|discriminate].
-    apply bytes_eqb_eq in Eh. subst hd. apply rd_read_ok in Er as [R [_ P]]. cbn [rest pos] in R, P.
-    rewrite (reader_eta r), P in H. change (0 + blen BF3_FILE_SIG) with (blen BF3_SIGNATURE) in H.
-    destruct (proj1 (from_binary_accept_iff dec mac true _ _ k) (ex_intro _ cs H)) as [fs [Hb Hd]].
-    exists fs. split; [|exact Hd]. exists (rest r). split; [rewrite Hs; exact R|exact Hb].
-  - intros [fs [[body [-> Hb]] Hd]]. rewrite Hs, rd_read_app. cbn [bind]. rewrite bytes_eqb_refl. cbn [negb].
-    rewrite <- Hs. change (0 + blen BF3_SIGNATURE) with (blen BF3_SIGNATURE).
-    apply (from_binary_accept_iff dec mac true). exists fs. split; assumption.
-Qed.
+Proof. exact file_accept_iff. Qed.
 Print Assumptions C05_file_accept_iff.
 
 (* ---- the registered adapter (zero-padded CBC over any block function) ------------- *)
@@ -131,6 +96,25 @@ Theorem C05_accept_iff_nomac_adapter : forall (E D : bytes -> bytes -> bytes) b 
 Proof. exact adapter_accept_noauth_iff. Qed.
 Print Assumptions C05_accept_iff_nomac_adapter.
 
+(* canonical form: an accepted binary (declared lengths >= 1) is exactly what the writer
+   produces for the returned components - with the same header length and key.  Needs the
+   block function to be a permutation in both directions (true of AES; D_len, ED are
+   hypotheses like E_len, DE). *)
+Section C05_canonical.
+  Variable E D : bytes -> bytes -> bytes.
+  Hypothesis E_len : forall k b, length b = 16%nat -> length (E k b) = 16%nat.
+  Hypothesis D_len : forall k b, length b = 16%nat -> length (D k b) = 16%nat.
+  Hypothesis DE : forall k b, length b = 16%nat -> D k (E k b) = b.
+  Hypothesis ED : forall k b, length b = 16%nat -> E k (D k b) = b.
+
+  Theorem C05_canonical : forall b off k cs,
+    from_binary (adapter_decrypt D) (adapter_mac E) (mkR b off) true k = Ok cs ->
+    (forall fs, is_bf3_body (adapter_mac E) off k fs b -> Forall (fun f => 1 <= ef_actual (fr_entry f)) fs) ->
+    to_binary (adapter_encrypt E) (adapter_mac E) cs off k = Ok b.
+  Proof. exact (adapter_canonical E D E_len D_len DE ED). Qed.
+End C05_canonical.
+Print Assumptions C05_canonical.
+
 (* the proved checker of the layout is therefore an acceptance oracle for the reader *)
 Theorem C05_checker_decides : forall dec mac b off k,
   (exists cs, from_binary dec mac (mkR b off) true k = Ok cs) <->
@@ -142,8 +126,8 @@ Qed.
 Print Assumptions C05_checker_decides.
 
 (* non-vacuity: both sides of the equivalence are inhabited by the writer's output for a
-   2-component file (one encrypted) under the toy cipher, and one flipped address is rejected
-   by reader and checker alike *)
+   2-component file (one encrypted) under the toy cipher, the same bytes read at another
+   offset are rejected by reader and checker alike, and writing what was read gives the bytes back *)
 Definition c05_ex : list comp :=
   [mkComp [(0xC3, [x02]); (0x00, [])] [x01; x00; x00] 2 false;
    mkComp [(0xC2, [x02])] [x09; x08; x07; x00] 4 true].
@@ -152,7 +136,10 @@ Example C05_nonvacuous :
    Ok (is_ok (from_binary (adapter_decrypt toyD) (adapter_mac toyE) (mkR b 5) true (zeros 16)),
        is_ok (check_layout (adapter_mac toyE) 5 (zeros 16) b),
        is_ok (from_binary (adapter_decrypt toyD) (adapter_mac toyE) (mkR b 6) true (zeros 16)),
-       is_ok (check_layout (adapter_mac toyE) 6 (zeros 16) b)))
-  = Ok (true, true, false, false).
+       is_ok (check_layout (adapter_mac toyE) 6 (zeros 16) b),
+       res_eqb bytes_eqb
+         (let* cs := from_binary (adapter_decrypt toyD) (adapter_mac toyE) (mkR b 5) true (zeros 16) in
+          to_binary (adapter_encrypt toyE) (adapter_mac toyE) cs 5 (zeros 16)) (Ok b)))
+  = Ok (true, true, false, false, true).
 Proof. vm_compute. reflexivity. Qed.
 Print Assumptions C05_nonvacuous.
